@@ -620,7 +620,7 @@ proof fn example_annotation_ignored()
 }
 /// witnesses: the resource-bound preconditions of read_table / parse_content are satisfiable (an empty part)
 proof fn witness_resource_bounds()
-    ensures Seq::<Ev>::empty().len() < 0x7fff_fffe,
+    ensures Seq::<Ev>::empty().len() <= usize::MAX,
 {}
 
 //@@ props C04
@@ -851,15 +851,18 @@ pub open spec fn lg<T: Default>(cs: Seq<T>, co: Seq<usize>, rp: Seq<usize>, l: i
     if in_phys(rp, i, l) && 0 <= c < rlen(co, i) { cs[co[i] + c] } else { dflt::<T>() }
 }
 pub open spec fn nd<T: Default>(cs: Seq<T>, co: Seq<usize>, rp: Seq<usize>, l: int, c: int) -> bool { lg(cs, co, rp, l, c) != dflt::<T>() }
+/// the grid of a sheet: 2^20 rows, 2^14 columns (the limits of LibreOffice Calc and of Excel)
+pub open spec fn grid_rows() -> int { 1_048_576 }
+pub open spec fn grid_cols() -> int { 16_384 }
+/// what read_table checks before it hands the rows to get_range: repeat counts are positive (ODF 1.2 19.676: positiveInteger), and the
+/// sheet stays within the grid (so it fits the u32 coordinates of Range)
 pub open spec fn hyp<T>(cs: Seq<T>, co: Seq<usize>, rp: Seq<usize>) -> bool {
     &&& reps_pos(rp)
-    &&& rep_sum(rp, rp.len() as int) <= u32::MAX
-    &&& cs.len() <= u32::MAX
+    &&& rep_sum(rp, rp.len() as int) <= grid_rows()
+    &&& cols_in_grid(co)
 }
+pub open spec fn cols_in_grid(co: Seq<usize>) -> bool { forall|i: int| 0 <= i < co.len() - 1 ==> #[trigger] rlen(co, i) <= grid_cols() }
 pub open spec fn reps_pos(rp: Seq<usize>) -> bool { forall|i: int| 0 <= i < rp.len() ==> #[trigger] rp[i] >= 1 }
-pub open spec fn no_blank_row_in<T: Default>(cs: Seq<T>, co: Seq<usize>, rp: Seq<usize>, l0: int, l1: int) -> bool {
-    forall|l: int| l0 <= l <= l1 ==> #[trigger] row_has_nd(cs, co, rp, l)
-}
 pub open spec fn row_has_nd<T: Default>(cs: Seq<T>, co: Seq<usize>, rp: Seq<usize>, l: int) -> bool { exists|c: int| nd(cs, co, rp, l, c) }
 pub open spec fn col_has_nd<T: Default>(cs: Seq<T>, co: Seq<usize>, rp: Seq<usize>, c: int) -> bool { exists|l: int| nd(cs, co, rp, l, c) }
 /// the clauses of get_range's contract that unit ods PROVES, as one predicate over the result (lo, hi, data)
@@ -869,7 +872,7 @@ pub open spec fn contract_ok<T: Default>(cs: Seq<T>, co: Seq<usize>, rp: Seq<usi
     &&& forall|l: int, c: int| nd(cs, co, rp, l, c) ==> lo.0 <= l <= hi.0 && lo.1 <= c <= hi.1
     &&& data.len() > 0 ==> row_has_nd(cs, co, rp, lo.0 as int) && row_has_nd(cs, co, rp, hi.0 as int)
             && col_has_nd(cs, co, rp, lo.1 as int) && col_has_nd(cs, co, rp, hi.1 as int)
-    &&& data.len() > 0 && (lo.1 == 0 || no_blank_row_in(cs, co, rp, lo.0 as int, hi.0 as int)) ==>
+    &&& data.len() > 0 ==>
             data.len() == (hi.0 - lo.0 + 1) * (hi.1 - lo.1 + 1)
             && forall|l: int, c: int| lo.0 <= l <= hi.0 && lo.1 <= c <= hi.1 ==>
                 data[(l - lo.0) * (hi.1 - lo.1 + 1) + (c - lo.1)] == lg(cs, co, rp, l, c)
@@ -877,8 +880,9 @@ pub open spec fn contract_ok<T: Default>(cs: Seq<T>, co: Seq<usize>, rp: Seq<usi
 // present only so that the (unverified) text of get_range compiles
 //@@ fn src/ods.rs is_empty_row props=C04 ret=r external_body
 //@@ end
-// TRUSTED: proved in unit ods -- requires / ensures are the text of units/ods/unit.rs (the nine clauses C04.empty_iff .. C04.placement_outside_known_defect
-// are the conjuncts of contract_ok).  `lawful::<T>()` and the resource bound are preconditions there, so they are obligations of read_table here.
+// TRUSTED: proved in unit ods -- requires / ensures are the text of units/ods/unit.rs (the nine clauses C04.empty_iff .. C04.placement
+// are the conjuncts of contract_ok).  `lawful::<T>()`, the shape of the three vectors and the checks of the repeat counts (`hyp`) are
+// preconditions there, so they are obligations of read_table here.
 //@@ fn src/ods.rs get_range props=C04 ret=r external_body
 //@@ sig
     requires
@@ -886,12 +890,14 @@ pub open spec fn contract_ok<T: Default>(cs: Seq<T>, co: Seq<usize>, rp: Seq<usi
         lawful::<T>(),
         //# C04.get_range_needs_wf_shape
         wf_shape(cells@, cols@, rows_repeats@),
-        //# C06.get_range_resource_bound_rows
-        cols@.len() <= 0x7fff_ffff,
-        //# C06.get_range_resource_bound_cells
-        cells@.len() <= 0x7fff_ffff,
+        //# C06.get_range_needs_positive_repeat_counts
+        reps_pos(rows_repeats@),
+        //# C06.get_range_needs_rows_within_grid
+        rep_sum(rows_repeats@, rows_repeats@.len() as int) <= grid_rows(),
+        //# C06.get_range_needs_columns_within_grid
+        cols_in_grid(cols@),
     ensures
-        hyp(cells@, cols@, rows_repeats@) ==> contract_ok(cells@, cols@, rows_repeats@, r.lo(), r.hi(), r.data()),
+        contract_ok(cells@, cols@, rows_repeats@, r.lo(), r.hi(), r.data()),
 //@@ end
 
 // ---- the contract of read_row (text of unit ods, where it is PROVED), over the cell elements of a row
@@ -969,10 +975,15 @@ pub open spec fn cell_next(evs: Seq<Ev>, p: nat) -> nat {
     let a = evs[p as int].attrs;
     if gd_closed(evs, p + 1, a) { gd_next(evs, p + 1, a) } else { rte_next(evs, gd_next(evs, p + 1, a), evs[p as int].name) }
 }
+/// character data and comments between the cells of a row (the white space of an indented content.xml) are not part of the table
+/// (ODF 1.2 9.1.3: <table:table-row> has element content only)
+pub open spec fn is_filler(e: Ev) -> bool { e.kind is Text || e.kind is Comment }
 pub open spec fn row_cells(evs: Seq<Ev>, p: nat) -> Seq<CellEl>
     decreases (if p <= evs.len() { evs.len() - p } else { 0 })
 {
-    if p >= evs.len() || !is_cell_start(evs[p as int]) || cell_next(evs, p) <= p { Seq::empty() }
+    if p >= evs.len() { Seq::empty() }
+    else if is_filler(evs[p as int]) { row_cells(evs, p + 1) }
+    else if !is_cell_start(evs[p as int]) || cell_next(evs, p) <= p { Seq::empty() }
     else { seq![cell_el(evs, p)] + row_cells(evs, cell_next(evs, p)) }
 }
 /// THE LOGICAL ROW: every cell element contributes n copies of its value
@@ -994,22 +1005,25 @@ pub open spec fn row_f_ok(full: Seq<Seq<char>>, out: Seq<Seq<char>>) -> bool {
     out.len() <= full.len() && out =~= full.take(out.len() as int) && forall|i: int| out.len() <= i < full.len() ==> full[i].len() == 0
 }
 pub open spec fn strs(v: Seq<String>) -> Seq<Seq<char>> { Seq::new(v.len(), |i: int| v[i]@) }
-/// reading a row from event p on (read_row): cell elements are skipped one by one (cell_next), the closing `table:table-row` ends the
-/// row, anything else is an error
+/// reading a row from event p on (read_row): cell elements are skipped one by one (cell_next), white space and comments between them
+/// are skipped, the closing `table:table-row` ends the row, anything else is an error
 pub ghost struct RowScan { pub ok: bool, pub next: nat }
 pub open spec fn row_scan(evs: Seq<Ev>, p: nat) -> RowScan
     decreases (if p <= evs.len() { evs.len() - p } else { 0 })
 {
     if p >= evs.len() || evs[p as int].kind is Error { RowScan { ok: false, next: p } }
+    else if is_filler(evs[p as int]) { row_scan(evs, p + 1) }
     else if is_cell_start(evs[p as int]) { if cell_next(evs, p) > p { row_scan(evs, cell_next(evs, p)) } else { RowScan { ok: false, next: p } } }
     else if evs[p as int].kind is End && evs[p as int].name == n_row() { RowScan { ok: true, next: p + 1 } }
     else { RowScan { ok: false, next: p } }
 }
 /// where the reader stands after the row whose content starts at `pos`
 pub open spec fn row_next(evs: Seq<Ev>, pos: nat) -> nat { row_scan(evs, pos).next }
-// TRUSTED: proved in unit ods (clauses C04.row_frame_events, C04.row_repeat_expansion_values, C04.row_repeat_expansion_formulas: same text).
+// TRUSTED: proved in unit ods (clauses C04.row_frame_events, C04.row_repeat_expansion_values, C04.row_repeat_expansion_formulas,
+// C06.row_within_grid_columns, C06.row_growth_within_grid_columns: same text).
 // The contract of unit ods says nothing about the reader position and about `cells` / `formulas` growing in step; these two frame
-// clauses (the last two) are PROVED on the same text in `mod frame` at the end of this unit.
+// clauses (the fourth and the fifth) are PROVED on the same text in `mod frame` at the end of this unit.
+//@@ item src/ods.rs const MAX_COLUMNS
 //@@ fn src/ods.rs read_row props=C04 ret=r r4 r12 external_body
 //@@ sig
     ensures
@@ -1020,6 +1034,8 @@ pub open spec fn row_next(evs: Seq<Ev>, pos: nat) -> nat { row_scan(evs, pos).ne
             && row_f_ok(expand_f(row_cells(old(reader).events(), old(reader).pos())), out),
         r is Ok ==> final(reader).pos() == row_next(old(reader).events(), old(reader).pos()) && final(reader).pos() > old(reader).pos(),
         r is Ok ==> final(cells)@.len() - old(cells)@.len() == final(formulas)@.len() - old(formulas)@.len(),
+        r is Ok ==> expand_v(row_cells(old(reader).events(), old(reader).pos())).len() <= grid_cols(),
+        r is Ok ==> final(cells)@.len() - old(cells)@.len() <= grid_cols() && final(formulas)@.len() - old(formulas)@.len() <= grid_cols(),
 //@@ end
 
 // TRUSTED: the laws of the two cell types of an ods sheet, a hypothesis of unit ods's get_range contract (`lawful`): `#[derive(Clone,
@@ -1074,6 +1090,18 @@ pub open spec fn table_formulas(rows: Seq<RowEl>, evs: Seq<Ev>, fs: Seq<String>,
     &&& forall|i: int| 0 <= i < rows.len() ==> co[i] <= co[i + 1] <= fs.len()
             && row_f_ok(expand_f(row_cells(evs, rows[i].start)), #[trigger] strs(fs).subrange(co[i] as int, co[i + 1] as int))
 }
+proof fn lemma_rep_sum_push(rp: Seq<usize>, v: usize)
+    ensures rep_sum(rp.push(v), rp.len() as int + 1) == rep_sum(rp, rp.len() as int) + v,
+{
+    lemma_rep_sum_prefix(rp, rp.push(v), rp.len() as int);
+}
+proof fn lemma_rep_sum_prefix(a: Seq<usize>, b: Seq<usize>, n: int)
+    requires 0 <= n <= a.len() <= b.len(), forall|i: int| 0 <= i < n ==> a[i] == b[i],
+    ensures rep_sum(a, n) == rep_sum(b, n),
+    decreases n,
+{
+    if n > 0 { lemma_rep_sum_prefix(a, b, n - 1); }
+}
 /// what read_table establishes about the three vectors it hands to get_range: exactly get_range's precondition, and more
 pub open spec fn cols_shape(co: Seq<usize>, n: int) -> bool {
     &&& co.len() >= 1 && co[0] == 0 && co[co.len() - 1] == n
@@ -1091,16 +1119,16 @@ pub open spec fn table_parts(evs: Seq<Ev>, p0: nat, cs: Seq<Data>, fs: Seq<Strin
 pub open spec fn table_result(evs: Seq<Ev>, p0: nat, vlo: (u32, u32), vhi: (u32, u32), vdata: Seq<Data>,
     flo: (u32, u32), fhi: (u32, u32), fdata: Seq<String>) -> bool {
     exists|cs: Seq<Data>, fs: Seq<String>, co: Seq<usize>, rp: Seq<usize>| #[trigger] table_parts(evs, p0, cs, fs, co, rp)
-        && (hyp(cs, co, rp) ==> contract_ok(cs, co, rp, vlo, vhi, vdata))
-        && (hyp(fs, co, rp) ==> contract_ok(fs, co, rp, flo, fhi, fdata))
+        && hyp(cs, co, rp) && contract_ok(cs, co, rp, vlo, vhi, vdata) && contract_ok(fs, co, rp, flo, fhi, fdata)
 }
 
+//@@ item src/ods.rs const MAX_ROWS
 //@@ fn src/ods.rs read_table props=C04 entry ret=r r12
 //@@ sig
     requires
-        // resource bound (as in unit ods): the part has fewer than 2^31 - 1 XML events
+        // resource bound (as for get_datatype): the part has no more XML events than a usize can count
         //# C06.read_table_resource_bound_events
-        old(reader).events().len() < 0x7fff_fffe,
+        old(reader).events().len() <= usize::MAX,
     ensures
         //# C04.ods_table_events_frame
         r is Ok ==> final(reader).events() == old(reader).events(),
@@ -1120,8 +1148,7 @@ pub open spec fn table_result(evs: Seq<Ev>, p0: nat, vlo: (u32, u32), vhi: (u32,
             //# C04.ods_table_scan_position
             table_next(evs, p0) == table_next(evs, reader.pos()),
         invariant
-            reader.events() == evs, evs == old(reader).events(), p0 == old(reader).pos(), evs.len() < 0x7fff_fffe, reader.pos() >= p0,
-            rows_done.len() + reader.left() <= evs.len(),
+            reader.events() == evs, evs == old(reader).events(), p0 == old(reader).pos(), evs.len() <= usize::MAX, reader.pos() >= p0,
             //# C04.ods_cols_are_row_boundaries
             cols_shape(cols@, cells@.len() as int),
             //# C04.ods_formulas_in_step_with_cells
@@ -1132,6 +1159,12 @@ pub open spec fn table_result(evs: Seq<Ev>, p0: nat, vlo: (u32, u32), vhi: (u32,
             table_values(rows_done, evs, cells@, cols@, rows_repeats@),
             //# C04.ods_row_formulas_so_far
             table_formulas(rows_done, evs, formulas@, cols@, rows_repeats@),
+            //# C06.ods_repeat_counts_positive
+            reps_pos(rows_repeats@),
+            //# C06.ods_row_count_is_the_sum_of_the_repeat_counts
+            row_count == rep_sum(rows_repeats@, rows_repeats@.len() as int) && row_count <= grid_rows(),
+            //# C06.ods_rows_within_grid_columns
+            cols_in_grid(cols@),
         ensures
             table_rows(evs, p0) == rows_done, table_next(evs, p0) == reader.pos(), reader.pos() > p0,
         decreases reader.left(),
@@ -1157,6 +1190,10 @@ pub open spec fn table_result(evs: Seq<Ev>, p0: nat, vlo: (u32, u32), vhi: (u32,
                 // (placed at the end of the loop body so that the order of the two pushes does not matter)
                 //# C04.ods_one_boundary_and_one_repeat_count_per_row
                 assert(cols@ == co0.push(cells@.len() as usize) && rows_repeats@ == rp0.push(rr));
+                lemma_rep_sum_push(rp0, rr);
+                assert forall|i: int| 0 <= i < cols@.len() - 1 implies #[trigger] rlen(cols@, i) <= grid_cols() by {
+                    if i < co0.len() - 1 { assert(rlen(cols@, i) == rlen(co0, i)); }
+                }
                 let out = choose|out: Seq<Data>| cells@ == cs0 + out && row_v_ok(expand_v(row_cells(evs, p + 1)), out);
                 let outf = choose|out: Seq<Seq<char>>| strs(formulas@) == strs(fs0) + out && row_f_ok(expand_f(row_cells(evs, p + 1)), out);
                 let el = RowEl { rep: row_rep(evs[p as int].attrs), start: p + 1 };
@@ -1196,6 +1233,7 @@ pub open spec fn table_result(evs: Seq<Ev>, p0: nat, vlo: (u32, u32), vhi: (u32,
         axiom_lawful_cell_types();
         assert(wf_shape(cells@, cols@, rows_repeats@));
         assert(wf_shape(formulas@, cols@, rows_repeats@));
+        assert(hyp(cells@, cols@, rows_repeats@));
         //# C04.ods_table_parts
         assert(table_parts(evs, p0, cells@, formulas@, cols@, rows_repeats@));
     }
@@ -1592,9 +1630,9 @@ proof fn lemma_ranges_push(m0: Map<Seq<char>, (Range<Data>, Range<String>)>, evs
 //@@ fn src/ods.rs parse_content props=C16,C04 entry ret=r r12 mutparams
 //@@ sig
     requires
-        // resource bound (as in read_table): the content part has fewer than 2^31 - 1 XML events
+        // resource bound (as in read_table): the content part has no more XML events than a usize can count
         //# C06.parse_content_resource_bound_events
-        content_events(__p_zip) matches Some(evs) ==> evs.len() < 0x7fff_fffe,
+        content_events(__p_zip) matches Some(evs) ==> evs.len() <= usize::MAX,
     ensures
         //# C16.ods_content_part_missing
         content_events(__p_zip) is None ==> r is Err,
@@ -1632,7 +1670,7 @@ proof fn lemma_ranges_push(m0: Map<Seq<char>, (Range<Data>, Range<String>)>, evs
             //# C16.ods_content_walk_so_far
             tot == pc_scan(evs, reader.pos(), st),
         invariant
-            reader.events() == evs, content_events(__p_zip) == Some(evs), evs.len() < 0x7fff_fffe, tot == pc_scan(evs, 0, pc_init()),
+            reader.events() == evs, content_events(__p_zip) == Some(evs), evs.len() <= usize::MAX, tot == pc_scan(evs, 0, pc_init()),
             forall|a: SheetVisible, b: SheetVisible| call_ensures(<SheetVisible as Clone>::clone, (&a,), b) ==> a == b,
             //# C16.ods_style_in_scope
             okey(style_name) == st.cur,
@@ -1736,6 +1774,8 @@ impl Frame {
         invariant
             reader.events() == evs, evs == old(reader).events(), evs.len() <= usize::MAX, p0 == old(reader).pos(), reader.pos() >= p0,
             cells@.len() - old(cells)@.len() == formulas@.len() - old(formulas)@.len(),
+            //# C06.row_len_within_grid_columns
+            row_len <= grid_cols(),
         ensures
             row_scan(evs, p0).ok && row_scan(evs, p0).next == reader.pos() && reader.pos() > p0,
         decreases reader.left(),
@@ -1761,6 +1801,12 @@ impl Frame {
                             reader.events() == evs, evs == old(reader).events(), evs.len() <= usize::MAX, p0 == old(reader).pos(), p >= p0, p < evs.len(),
                             row_scan(evs, p0) == row_scan(evs, p), is_cell_start(evs[p as int]), e.ev() == evs[p as int],
                             is_closed == gd_closed(evs, p + 1, evs[p as int].attrs), reader.pos() == gd_next(evs, p + 1, evs[p as int].attrs), reader.pos() >= p + 1,
+//@@ before /return Err\(OdsError::Mismatch \{ expected: "table-cell"/
+                proof {
+                    // C04 (row_mismatch_only_for_malformed_rows): white space / comments between the cells never get here; this error is
+                    // reserved for rows that are malformed
+                    assert(!row_scan(evs, p0).ok);
+                }
 //@@ end
 }
 
